@@ -1,6 +1,7 @@
 package an
 
 import (
+	"go/constant"
 	"go/token"
 
 	"golang.org/x/tools/go/ssa"
@@ -37,7 +38,9 @@ func FactsAt(b *ssa.BasicBlock) []Fact {
 		if len(b.Preds) == 1 {
 			p := b.Preds[0]
 			if ifi, ok := p.Instrs[len(p.Instrs)-1].(*ssa.If); ok && p.Succs[0] != p.Succs[1] {
-				out = append(out, normFact(ifi.Cond, p.Succs[0] == b, ifi))
+				f := normFact(ifi.Cond, p.Succs[0] == b, ifi)
+				out = append(out, f)
+				out = append(out, expandPhiFact(f, 0)...)
 			}
 			b = p
 			continue
@@ -177,7 +180,9 @@ func HoldsAt(b *ssa.BasicBlock, v ssa.Value, want bool) bool {
 func FactsOnEdge(e Edge) []Fact {
 	out := FactsAt(e.From)
 	if ifi, ok := e.From.Instrs[len(e.From.Instrs)-1].(*ssa.If); ok && e.From.Succs[0] != e.From.Succs[1] {
-		out = append(out, normFact(ifi.Cond, e.From.Succs[0] == e.To, ifi))
+		f := normFact(ifi.Cond, e.From.Succs[0] == e.To, ifi)
+		out = append(out, f)
+		out = append(out, expandPhiFact(f, 0)...)
 	}
 	return out
 }
@@ -190,5 +195,40 @@ func CmpsOnEdge(e Edge) []Cmp {
 			out = append(out, c)
 		}
 	}
+	return out
+}
+
+// expandPhiFact handles short-circuit expressions evaluated as values (`x := a && b`, switch cases):
+// go/ssa lowers them to a phi of a boolean constant and the right operand. If the phi is known true
+// (false) and exactly one incoming edge can carry true (false), that operand has the value and every
+// fact on the way to that predecessor holds too.
+func expandPhiFact(f Fact, depth int) []Fact {
+	phi, ok := f.V.(*ssa.Phi)
+	if !ok || depth > 4 {
+		return nil
+	}
+	cand := -1
+	for i, e := range phi.Edges {
+		if k, isC := e.(*ssa.Const); isC && k.Value != nil && k.Value.Kind() == constant.Bool {
+			if constant.BoolVal(k.Value) != f.True {
+				continue // this edge carries the opposite constant
+			}
+		}
+		if cand >= 0 {
+			return nil // more than one edge can carry the value
+		}
+		cand = i
+	}
+	if cand < 0 {
+		return nil
+	}
+	pred := phi.Block().Preds[cand]
+	var out []Fact
+	if _, isC := phi.Edges[cand].(*ssa.Const); !isC {
+		nf := normFact(phi.Edges[cand], f.True, f.If)
+		out = append(out, nf)
+		out = append(out, expandPhiFact(nf, depth+1)...)
+	}
+	out = append(out, FactsOnEdge(Edge{pred, phi.Block()})...)
 	return out
 }
